@@ -260,6 +260,49 @@ for tid in (1, 2, 3, 4, 5, 6, 11, 12):
             lambda tid=tid: codon_table_api(tid))
 
 
+def codon_table_database():
+    """every table of the shipped NCBI table file, under its id and under each of its names, is the table the file
+    lists (amino acid and start codon of each of the 64 codons, read here independently of the library)"""
+    import os
+    path = os.path.join(os.path.dirname(seq.__file__), "codon_tables.txt")
+    tables, cur = [], None
+    for line in open(path).read().split("\n"):
+        if line.startswith("name"):
+            cur = {"names": [x.strip() for x in line[4:].split(";") if x.strip()]}
+            tables.append(cur)
+        elif line.startswith("id") and cur is not None:
+            cur["id"] = int(line[2:])
+        elif cur is not None:
+            for key in ("AA", "Init", "Base1", "Base2", "Base3"):
+                if line.startswith(key + " "):
+                    cur[key] = line[len(key):].strip()
+    if len(tables) < 20:
+        return f"only {len(tables)} tables found in {path}"
+    all_names = [n for t in tables for n in t["names"]]
+    if sorted(seq.CodonTable.table_names()) != sorted(all_names):
+        return "table_names() differs from the names in the table file"
+    for t in tables:
+        exp = {t["Base1"][k] + t["Base2"][k] + t["Base3"][k]: t["AA"][k] for k in range(64)}
+        starts = {t["Base1"][k] + t["Base2"][k] + t["Base3"][k] for k in range(64) if t["Init"][k] not in "-*"}
+        for key in [t["id"]] + t["names"]:
+            tab = seq.CodonTable.load(key)
+            if tab.codon_dict() != exp:
+                diff = {c: (tab.codon_dict()[c], a) for c, a in exp.items() if tab.codon_dict()[c] != a}
+                return f"CodonTable.load({key!r}) is not table {t['id']} of the file: codon -> (loaded, file) {dict(list(diff.items())[:4])}"
+            if set(tab.start_codons()) != starts:
+                return f"CodonTable.load({key!r}): start codons {sorted(tab.start_codons())}, table {t['id']} of the file has {sorted(starts)}"
+    for bad in ("No such table", 999, "Flatworm"):
+        try:
+            seq.CodonTable.load(bad)
+            return f"CodonTable.load({bad!r}) did not raise"
+        except ValueError:
+            pass
+    return None
+
+
+R.check("translation == codon-wise lookup; derived tables leave the parent untouched", "codon table database", {"file": "codon_tables.txt"}, codon_table_database)
+
+
 def orf_contract(text):
     s = seq.NucleotideSequence(text)
     table = seq.CodonTable.default_table()
